@@ -4,3 +4,6 @@ package verifhook
 
 // Point is a no-op unless built with -tags verif.
 func Point(string, interface{}) {}
+
+// Yield is a no-op unless built with -tags verif.
+func Yield() {}
